@@ -99,8 +99,14 @@ func c06RunOne(x *X, g *impCase, sched []int) error {
 }
 
 func c06RunOneR(x *X, g *impCase, sched []int) (*gateResult, error) {
+	return c06RunMode(x, g, sched, "c06")
+}
+
+// c06RunMode: mode "c06" realises the completion order sched through the gate; "c06-free" lets the
+// retrievals race (every read is answered at once) and judges the run by the files it asked for.
+func c06RunMode(x *X, g *impCase, sched []int, mode string) (*gateResult, error) {
 	follow := func(i int) bool { return c06Follows(g.Faults[i]) }
-	r, death, inconcl := gatedRun(g, sched, "c06")
+	r, death, inconcl := gatedRun(g, sched, mode)
 	if inconcl {
 		x.Inconclusive("a run that overran its time bound did not reproduce")
 		return r, nil
@@ -109,7 +115,7 @@ func c06RunOneR(x *X, g *impCase, sched []int) (*gateResult, error) {
 		return r, finding("crash:"+death.Sig(), "the process ended instead of returning an error: %s\n%s", firstLine(death.Text), g.describeFaults())
 	}
 	if r.Hung {
-		r2, death2, _ := gatedRun(g, sched, "c06")
+		r2, death2, _ := gatedRun(g, sched, mode)
 		if death2 != nil {
 			return r2, finding("crash:"+death2.Sig(), "the process ended instead of returning an error: %s\n%s", firstLine(death2.Text), g.describeFaults())
 		}
@@ -203,6 +209,15 @@ func checkC06(x *X, g impCase) error {
 	x.Sample(g.describeFaults())
 	if len(g.Faults) > 0 {
 		x.NonTrivial(g.describeFaults() + fmt.Sprint(g.Scheds))
+	}
+	// free-running executions: a failure that is delivered at once (before its siblings have even registered)
+	// is an order the gate never produces, and it is the common one in production
+	for k := 0; k < 4; k++ {
+		if _, err := c06RunMode(x, &g, nil, "c06-free"); err != nil {
+			x.Class("violation_in_free_running_execution")
+			return err
+		}
+		x.Class("free_running_execution")
 	}
 	for _, s := range g.Scheds {
 		if err := c06RunOne(x, &g, s); err != nil {
